@@ -276,7 +276,7 @@ fn history(cfg: &Cfg, rep: &mut Report, h: u64, steps: usize) {
 
 pub fn run(cfg: &Cfg, rep: &mut Report) {
     rep.rule = "Seeded histories of schedule/execute (execute_operation) / mark (set_execute_operation, the entry point self-administered controllers use)/cancel/set_min_delay/ledger moves over 7 operation templates with predecessor links (to done, pending, cancelled, never-scheduled, failing-target ids), delays on {0,min-1,min,min+1,1e6,u32::MAX,MAX-cur,MAX-cur+1}, ledger moved to {ready-1,ready,ready+1}; plus the timelock-controller example's self-administration path (an administrative call consumes the operation): C09's sweep of operation state x payload shape x executor variant and its predecessor cases, reported under C08/controller/. Distinct case = (op, position of cur relative to ready ledger / state, predecessor state, target fn, outcome).".into();
-    let nh = cfg.pick(200u64, 8000);
+    let nh = cfg.pick(200u64, 5000);
     let steps = cfg.pick(120usize, 250);
     for k in 0..nh {
         if cfg.runs(k) {
